@@ -468,6 +468,13 @@ def run(ctx):
     r3.check(oks, 'local-IP-substitution-before-the-length-test', ap.unit + ':addrparse', 'ipme_is() is consulted under liphostok, and the substitution precedes the test of addr.len')
     r3.expect_min(18)
 
+    # ---- the policy lists are what the control files say
+    from rules import C10
+    r5c = rep.rule('C08.5-policy-lists', 'R-TABLE', 'control_readfile(): badmailfrom / rcpthosts hold exactly the non-empty, non-comment lines of their files, including an unterminated last line')
+    for inst, v in sorted(C10.control_file_sites(db, rep, prog).items()):
+        r5c.check(v[0], inst, v[1], v[2], v[3])
+    r5c.expect_min(1)
+
     # ---- rcpthosts()
     r4 = rep.rule('C08.4-rcpthosts', 'R-TABLE', 'rcpthosts(): domain lower-cased before both lookups; candidates are the whole domain and every dot suffix, same predicate for the list and the cdb; no @ or no rcpthosts file -> allowed (documented open default); cdb errors propagate')
     rh = db.fn('rcpthosts.c', 'rcpthosts')
